@@ -57,13 +57,13 @@ type c10 struct {
 }
 
 func (c *c10) aloneRun(call Call) Outcome {
-	k := fmt.Sprintf("%s|%d|%d|%d|%d|%v", call.Tmpl, call.FaultProbe, call.FaultProbe2, call.FaultWrite, call.FaultKind, call.Data)
+	k := fmt.Sprintf("%s|%d|%d|%d|%d|%d|%v", call.Tmpl, call.FaultProbe, call.FaultProbe2, call.FaultWrite, call.FaultKind, call.SetCfg, call.Data)
 	if o, ok := c.alone[k]; ok {
 		return o
 	}
 	saved := c.pools.Policy
 	c.pools.Policy = simrt.PoolFresh
-	set, _ := NewSet(c.world.Files)
+	set := NewSetCfg(c.world.Files, call.SetCfg)
 	o := Exec(set, call, "x")
 	c.pools.AbandonOutstanding()
 	c.pools.Policy = saved
@@ -86,7 +86,9 @@ func RunC10(env *sim.Env) {
 	c := &c10{env: env, world: world, pools: pools, alone: map[string]Outcome{}}
 
 	// the Set under test lives through the whole history
-	set, _ := NewSet(world.Files)
+	set := NewSetCfg(world.Files, 0)
+	// a second Set with another escaper and a global: pooled Runtimes travel between Sets
+	set2 := NewSetCfg(world.Files, 1)
 	targets := append(append([]string(nil), world.Mains...), probePath)
 	tmpls := map[string]*jet.Template{}
 	for _, p := range targets {
@@ -118,7 +120,11 @@ func RunC10(env *sim.Env) {
 	var hist []string
 	failedReuse := 0
 	exec := func(call Call) {
-		o := Exec(set, call, "x")
+		hs := set
+		if call.SetCfg == 1 {
+			hs = set2
+		}
+		o := Exec(hs, call, "x")
 		pools.AbandonOutstanding()
 		pools.MarkLastReleased(o.Failed())
 		want := c.aloneRun(call)
@@ -230,7 +236,12 @@ func RunC10(env *sim.Env) {
 				if follow != m && t.Choose(2) == 1 {
 					fd = data2
 				}
-				exec(Call{Tmpl: follow, Data: fd})
+				fcfg := 0
+				if t.Choose(4) == 3 {
+					fcfg = 1
+					env.Stat("probe:follow_up_on_another_set", 1)
+				}
+				exec(Call{Tmpl: follow, Data: fd, SetCfg: fcfg})
 				if pools.RtReusedAfterFail > before {
 					failedReuse++
 				}
